@@ -420,6 +420,47 @@ class StmtMixin:
 
     UNKNOWN_LOOP_BOUND = 2
 
+    def unroll_unknown_for(self, s, itv, st, item_fn):
+        """`for` over an iterable of symbolic length without a loop contract: the first UNKNOWN_LOOP_BOUND iterations are explored
+        (bounded, like unroll_unknown_while): real paths, nothing proved."""
+        from .contracts import LoopCtx, LoopSpec
+        if s.orelse:
+            raise EngineError(f'for/else without invariant at line {s.lineno}')
+        ctx = LoopCtx(self, st, s, itv)
+        ctx.setup_iteration(LoopSpec(invariant=lambda l: {}))        # EngineError for iterables that cannot be indexed
+        self.bounded_unknown_loops.add(s.lineno)
+        results, live = [], [st]
+        for i in range(self.UNKNOWN_LOOP_BOUND + 1):
+            nxt = []
+            for s0 in live:
+                c = ctx.at(s0)
+                c.index = i
+                for r in c.for_guard(s0):
+                    if r.kind == 'raise':
+                        results.append((raise_out(r.val), r.st))
+                        continue
+                    for taken, s1 in self.branch(r.st, self.truthy(r.val, r.st)):
+                        if not taken:
+                            results.append((NORMAL, s1))
+                        elif i == self.UNKNOWN_LOOP_BOUND:
+                            pass
+                        else:
+                            item = c.current_item(s1)
+                            for o0, s2 in self.assign_loop_item(s, item, s1, item_fn):
+                                if o0[0] != 'normal':
+                                    results.append((o0, s2))
+                                    continue
+                                for bo, s3 in self.exec_block(s.body, s2):
+                                    if bo[0] in ('normal', 'continue'):
+                                        nxt.append(s3)
+                                    elif bo[0] == 'break':
+                                        results.append((NORMAL, s3))
+                                    else:
+                                        results.append((bo, s3))
+            live = nxt
+            self.paths_guard(len(results) + len(live))
+        return results
+
     def unroll_unknown_while(self, s, st):
         """A `while` loop that has no loop contract (typically: a loop the code did not have when the contracts were written).
         It is explored for at most UNKNOWN_LOOP_BOUND iterations; paths that would need more are cut.  Every path explored this way
@@ -475,7 +516,7 @@ class StmtMixin:
                 if seq is not None and (spec is None or not spec.iterate_concrete_list_symbolically):
                     return self.unroll_for(s, seq, s1)
                 if spec is None:
-                    raise EngineError(f'for loop over symbolic iterable without invariant at line {s.lineno}')
+                    return self.unroll_unknown_for(s, itv, s1, item_fn)
                 return self.exec_loop_with_invariant(s, s1, spec, kind='for', iterable=itv)
             finally:
                 self._item_fn = None
